@@ -68,7 +68,7 @@ STAGES = {
     "C17": [S("grid", "^TestC17$", shards=(4, 16)),
             S("neighbours", "^TestC17Neighbours$|^TestC17Large$|^TestC17Huge$")],
     "C01": [S("sweep", "^TestC01Sweep$", shards=(3, 9)),
-            S("sender-dies", "^TestC01SenderDies$"),
+            S("sender-dies", "^TestC01SenderDies$|^TestC01TwoPairs$"),
             S("roundtrip", "^TestC01$", quick=250, thorough=4000, shards=(6, 16), timeout=("15m", "90m"))],
     "C02": [S("lag", "^TestC02Lag$"),
             S("close-queued", "^TestC02CloseQueued$"),
